@@ -154,6 +154,101 @@ def logical_failures(R, g, fails, stats):
                         break
 
 
+def other_commands_injected(R, g, fails, known, stats, errnos):
+    """The same single-fault enumeration for rename, redo and replace (the property names all four commands). No model
+    alignment here: the oracle is the classification of the surviving tree (unchanged / listed class / other) and, for a run
+    that reports success, the complete planned tree plus exactly one new history entry."""
+    quick = R.tier == "quick"
+    kinds = ["rename", "redo", "replace"]
+    for i in range(3 if quick else 18):
+        kind = kinds[i % 3]
+        tree, search, replace = scenario(g, i)
+        # reference: what the command does without a fault
+        with cli.Sandbox(tree) as sb0:
+            if kind == "replace":
+                rc, o, e = sb0.run(["--no-auto-init", "-y", "replace", "--no-regex", search, replace, "--dry-run", "--output", "json"])
+                try:
+                    doc = json.loads(o.decode("utf-8"))
+                    plan = al.relativize(doc.get("plan", doc), sb0.root)
+                except Exception:
+                    continue
+            else:
+                rc, o, e = sb0.run(["--no-auto-init", "plan", search, replace, "--quiet"])
+                try:
+                    plan = al.relativize(json.loads((sb0.root / ".renamify/plan.json").read_text()), sb0.root)
+                except Exception:
+                    continue
+        t0 = al.tree_dict(tree)
+        full = al.reference_apply(t0, plan)
+        content_only = al.reference_apply(t0, {"matches": plan["matches"], "paths": []})
+        if isinstance(full, tuple) or isinstance(content_only, tuple):
+            continue
+        full_s, content_s = al.sha_dict(full), al.sha_dict(content_only)
+
+        def prepare():
+            sb = cli.Sandbox(tree)
+            if kind == "redo":
+                r1 = sb.run(["--no-auto-init", "-y", "rename", search, replace])
+                r2 = sb.run(["--no-auto-init", "-y", "undo", "latest"])
+                if r1[0] != 0 or r2[0] != 0:
+                    sb.cleanup()
+                    return None, None
+                return sb, ["--no-auto-init", "-y", "redo", "latest"]
+            if kind == "replace":
+                return sb, ["--no-auto-init", "-y", "replace", "--no-regex", search, replace]
+            return sb, ["--no-auto-init", "-y", "rename", search, replace]
+
+        sb, argv = prepare()
+        if sb is None:
+            continue
+        before = sb.snapshot()
+        ids0 = hist_ids(sb)
+        rc, o, e, trace = inject.strace_run(sb, argv)
+        evs = inject.mutating_events(trace, sb.root, classes=("user", "state"))
+        after0 = sb.snapshot()
+        sb.cleanup()
+        if rc != 0 or after0 != full_s:
+            fails.append({"why": f"fault-free {kind} did not produce the planned tree", "rc": rc, "tree": cli.tree_json(tree),
+                          "search": search, "replace": replace, "stderr": e.decode("utf-8", "replace")[-300:]})
+            continue
+        stats["other_cmd_scenarios"] = stats.get("other_cmd_scenarios", 0) + 1
+        step = 1 if not quick else max(1, len(evs) // 12)
+        for j, ev in enumerate(evs):
+            if j % step:
+                continue
+            for en in errnos:
+                sb2, argv2 = prepare()
+                if sb2 is None:
+                    continue
+                b2 = sb2.snapshot()
+                ids_b = hist_ids(sb2)
+                rc2, o2, e2, tr2 = inject.strace_run(sb2, argv2, inject=f"{ev.sys}:error={en}:when={ev.ordinal}")
+                after = norm_snap(sb2.snapshot())
+                ids_a = hist_ids(sb2)
+                sb2.cleanup()
+                if re.search(r"\(INJECTED\)", tr2) is None:
+                    continue
+                stats["other_cmd_injected_runs"] = stats.get("other_cmd_injected_runs", 0) + 1
+                stats.setdefault("other_cmd_by_kind", {})[kind] = stats.setdefault("other_cmd_by_kind", {}).get(kind, 0) + 1
+                R.case(("inj2", kind, i, j, en, search, replace), nontrivial=True)
+                ctx = {"command": " ".join(argv2[2:]), "inject": f"{ev.sys}:{en}:when={ev.ordinal}", "event": ev.raw[:200],
+                       "tree": cli.tree_json(tree), "search": search, "replace": replace}
+                if rc2 == 0:
+                    if after != full_s or ids_a == "UNPARSABLE" or len(ids_a) != len(ids_b) + 1:
+                        fails.append({"why": f"{kind} reported success under an injected fault but the plan is not completely applied "
+                                             "and recorded", **ctx})
+                    continue
+                cls = classify(norm_snap(b2), after, full_s, content_s, plan)
+                if ids_a != ids_b:
+                    cls = cls or "history_changed_on_failure"
+                stats["by_class"][f"{kind}:{cls}"] = stats["by_class"].get(f"{kind}:{cls}", 0) + 1
+                if cls in ("content_edits_not_rolled_back", "late_failure_tree_applied"):
+                    known[cls] = True
+                elif cls is not None:
+                    fails.append({"why": f"failed {kind} changed the tree or history in an unlisted way ({cls})", "rc": rc2,
+                                  "diff": repr(cli.diff_snap(norm_snap(b2), after))[:1200], "history": ids_a, **ctx})
+
+
 def run(R):
     R.trusted += ["Coq 8.16.1 kernel", "strace -e inject (error at the n-th call)", "extraction + modelrun.ml",
                   "Python reference interpreter"]
@@ -312,6 +407,7 @@ def run(R):
                               "diff": repr(cli.diff_snap(b3, a3))[:1200], "tree": cli.tree_json(tree), "search": search,
                               "replace": replace, "perturbation": kind, "victim": victim})
     M.close()
+    other_commands_injected(R, g, fails, known, stats, errnos)
     logical_failures(R, g, fails, stats)
     R.coverage["input_distribution"] = stats
     R.disagreements = len(dis)
